@@ -77,7 +77,7 @@ def reference(ctx, kind, pre, pairs, sign, vmin, vmax):
     return states, viols, weak
 
 
-def check_sequential(ctx, lab, kind, pre, pairs, sign, outcome, ns, prop):
+def check_sequential(ctx, lab, kind, pre, pairs, sign, outcome, ns, prop, sel=None):
     """state equality as identities of linear forms; exception type and 'offending well unchanged'"""
     okind, val = outcome
     vmin, vmax = lab.min_volume, lab.max_volume
@@ -89,9 +89,11 @@ def check_sequential(ctx, lab, kind, pre, pairs, sign, outcome, ns, prop):
 
     if okind == "ok":
         ctx.reach("ok")
-        ctx.prove(ctx.not_(ctx.any_of(viols)), f"{prop}: operation returned normally although a sub-step violates the volume limit")
-        ctx.prove(state_is(states[-1]), f"{prop}: post-state differs from initial +/- the addressed volumes (per real well, column-major pairing)")
-        for w in wells:
+        if sel in (None, "limit"):
+            ctx.prove(ctx.not_(ctx.any_of(viols)), f"{prop}: operation returned normally although a sub-step violates the volume limit")
+        if sel in (None, "state"):
+            ctx.prove(state_is(states[-1]), f"{prop}: post-state differs from initial +/- the addressed volumes (per real well, column-major pairing)")
+        for w in (wells if sel in (None, "post") else []):
             v = lab._volumes[w]
             ctx.prove(ctx.le(0, v), f"{prop}: negative volume after a normal return")
             touched = any(real_index(kind, pw) == w for pw, _ in pairs)
@@ -104,6 +106,8 @@ def check_sequential(ctx, lab, kind, pre, pairs, sign, outcome, ns, prop):
     want = ns.VolumeOverflowError if sign > 0 else ns.VolumeUnderflowError
     if isinstance(val, ns.VolumeViolationException):
         ctx.reach("exc:" + type(val).__name__)
+        if sel not in (None, "exc"):
+            return
         if type(val) is not want:
             ctx.violate(f"{prop}: wrong exception type {type(val).__name__} for {'add' if sign > 0 else 'remove'}")
         # some sub-step j is rejected: the earlier ones were acceptable, j reaches (weakly: the property does not promise
